@@ -22,12 +22,19 @@ Ends2(N) == {z \in N \X {T \in SUBSET N : Cardinality(T) = 2} : z[1] \notin z[2]
 \* one target: cutoff none, 2, 3, 4; two targets: none, 3
 QueryKeys(N) == (Ends1(N) \X {0, 2, 3, 4}) \cup (Ends2(N) \X {0, 3})
 
+\* paths_e: the KNOWN DEVIATION of the pinned code (finding X02-F5): the simple paths with at
+\* most c EDGES, i.e. c + 1 states (empty when no cutoff is given)
+EdgeCount(N, E, s, T, c) == IF c = 0 THEN {} ELSE Pathways(N, E, s, T, c + 1)
 Queries(N, E) ==
    {[s |-> z[1][1], t |-> SeqOfSet(z[1][2]), c |-> z[2],
-     paths |-> SetToSeq(Pathways(N, E, z[1][1], z[1][2], z[2]))] : z \in QueryKeys(N)}
+     paths |-> SetToSeq(Pathways(N, E, z[1][1], z[1][2], z[2])),
+     paths_e |-> SetToSeq(EdgeCount(N, E, z[1][1], z[1][2], z[2]))] : z \in QueryKeys(N)}
+\* nodes_ts / edges_ts: the KNOWN DEVIATION of the pinned code (finding X02-F4): the graph with
+\* the transition states kept whatever include_TS says
 PathCases ==
    {LET N == NodesOf(x[1], x[2])  E == EdgesOf(x[1], x[2]) IN
     [rx |-> x[1], inc |-> x[2], nodes |-> SeqOfSet(N), edges |-> EdgeSeq(E),
+     nodes_ts |-> SeqOfSet(NodesOf(x[1], TRUE)), edges_ts |-> EdgeSeq(EdgesOf(x[1], TRUE)),
      ts |-> SeqOfSet(TSOf(x[1], x[2])),
      qs |-> SetToSeq({qq \in Queries(N, E) : qq.paths # <<>>})]
       : x \in CaseNets \X BOOLEAN}
@@ -43,6 +50,9 @@ Pad(f) == [n \in 1..MaxId |-> IF n \in DOMAIN f THEN f[n] ELSE 0]
 AllEn(N) == {Pad(f) : f \in [N -> 0..2]}
 SpanCase(net, ic, en, s, T, c, P) ==
    [rx |-> net, inc |-> ic, en |-> en, s |-> s, t |-> SeqOfSet(T), c |-> c,
+    nodes |-> SeqOfSet(NodesOf(net, ic)), edges |-> EdgeSeq(EdgesOf(net, ic)),
+    nodes_ts |-> SeqOfSet(NodesOf(net, TRUE)), edges_ts |-> EdgeSeq(EdgesOf(net, TRUE)),
+    paths_e |-> SetToSeq(EdgeCount(NodesOf(net, ic), EdgesOf(net, ic), s, T, c)),
     paths |-> SetToSeq({[p |-> p, spans |-> SeqOfSet(PathSpans(en, p))] : p \in P}),
     mins |-> SeqOfSet(MinSpanSet(P, en))]
 \* every query with at least two pathways (one target: every energy set in ens; two targets:
